@@ -402,7 +402,7 @@ class Ctx:
             self.coverage_actions[a] = (o[0] + d, o[1] + t)
         return res
 
-    def validate_trace(self, module, cfg_text, records, *, tag=None, timeout=900, env=None, per_record_states=1, extra_files=None):
+    def validate_trace(self, module, cfg_text, records, *, tag=None, timeout=900, env=None, defs=None):
         """Write records as a JSON array, run the trace spec, return (TlcResult, rejects).
         The trace spec must consume one record per step and print {"k":"reject", "i":..} objects."""
         tag = tag or module
@@ -411,7 +411,7 @@ class Ctx:
         e = {"TRACE_FILE": str(tf)}
         if env:
             e.update(env)
-        res = self.tlc(module, cfg_text, env=e, workers=1, timeout=timeout, tag=tag)
+        res = self.tlc(module, cfg_text, env=e, workers=1, timeout=timeout, tag=tag, defs=defs)
         if not res.postcondition_ok:
             raise MachineryError(f"trace spec {module} did not consume the whole trace ({tag}): {res.raw_tail[-1500:]}")
         rejects = res.by_kind("reject")
